@@ -98,6 +98,22 @@ def loaded_runs(schema, rnd, tier):
     return runs
 
 
+def instances_only_runs(schema, rnd, tier):
+    """without explicit CREATE TABLE statements: only the instances are persisted and the classes are inferred on loading
+    (positional values; a boolean is written 0 / 1 and comes back as an integer column); last call of the run"""
+    runs = value_runs(schema, rnd, tier)
+    for r in runs:
+        r['acts'] = [a for a in r['acts'] if a[0] not in ('SaveLoad', 'Delete')]
+        r['acts'].append(['SaveLoad', {'save': 'instances_only', 'infer': {c: 'ser' for c in schema['classes']}}])
+    return runs
+
+
+def decorate_io(run, k, rnd):
+    for act in run['acts']:
+        if act[0] == 'SaveLoad':
+            act[1].update({'route': LOADS[k % len(LOADS)], 'seed': rnd.randint(0, 10 ** 6)})
+
+
 def plans():
     obs = metagen.battery(['nav', 'sel'], per_step=1)
     inv = ['TypeOK', 'Symmetric', 'OnlyLive']
@@ -116,6 +132,8 @@ def plans():
     for name in ('grid', 'many_one_2key', 'one_many', 'assoc_class', 'shared_ref', 'reflexive_11', 'subsuper', 'phrase_ends'):
         ps.append({'name': name + '_loaded', 'schema': name, 'model': False, 'bound': 4, 'decorate': decorate,
                    'obs': obs, 'random': loaded_runs})
+    ps.append({'name': 'plain2_instances_only', 'schema': 'plain2', 'model': False, 'bound': 3, 'decorate': decorate_io,
+               'random': instances_only_runs})
     return ps
 
 
@@ -134,5 +152,6 @@ def check(tier, replay_path=None):
             'outside it the specification still predicts the reloaded model (the join) and the code is compared with that',
             'character-level fidelity is decided on the listed representatives of each value class (quotes, doubled quotes, comment '
             'markers, newline, NUL, non-ASCII, tabs, backslash, >64-bit integers, 128-bit ids, reals with 7 decimals / 1e20)',
-            'phrases contain no quote; the inferred-schema route (no CREATE TABLE) is not covered',
+            'phrases contain no quote; without CREATE TABLE statements (plan plain2_instances_only: serialize_instances alone) '
+            'the classes are inferred: attribute names _0.., a boolean column comes back as an integer column (MetaTrace!ExpAttrs)',
         ])
